@@ -162,7 +162,7 @@ def main() -> int:
         n_hash = HASHSEEDS[args.tier]
         for i, sp in enumerate(specs):
             sp["__hashseed__"] = (i + seed) % n_hash
-        timeout_s = getattr(mod, "SHARD_TIMEOUT", {"quick": 240, "thorough": 3000})[args.tier]
+        timeout_s = getattr(mod, "SHARD_TIMEOUT", {"quick": 900, "thorough": 3000})[args.tier]
         known_all = load_known(pid)
         if hasattr(mod, "witnesses"):
             # stored witnesses of known findings (KNOWN-FINDING line printed deterministically) and of findings repaired since
